@@ -3,3 +3,11 @@ claim("C05", "bounded-exhaustive enumeration of put histories x option configura
   "Every put history up to the stated length over a collision-rich block alphabet, under every padding/codec/identity/v1/de-dup configuration and every writer front-end, is executed on the real code and its bytes are strictly decoded by an independent codec; exhaustive within the bound, no sampling.",
   "Trusted: refcar reference codec and the map model (DESIGN A.4, A.5); blocks outside the alphabet are assumed to behave like some block in it; bounds in evidence.bound.",
   "DESIGN.md 5/C05")
+claim("C01", "bounded-exhaustive enumeration of (roots, block sequence, options, container) with every writer x every reader run on the real code; reference codec as oracle",
+  "All block sequences up to the stated length over a collision-rich alphabet x root sets x de-dup/identity options x containers are written by every writer and each distinct output is read by every reader; payload bytes are compared across writers and with an independent encoder. Exhaustive within the bound.",
+  "Trusted: refcar reference codec, map model for de-duplication; alphabet and bounds in evidence.bound.",
+  "DESIGN.md 5/C01")
+claim("C03", "bounded-exhaustive enumeration of payloads x containers x index kinds x APIs/source kinds; offsets compared with the reference layout",
+  "Every payload up to the bound (duplicates, equal digests under different hash functions and codecs, identity, mixed widths) laid out by the independent encoder is indexed through every API and source kind; every alphabet CID is queried and every reported offset is checked against the bytes. Exhaustive within the bound.",
+  "Trusted: refcar layout; insertion index treated as digest-only.",
+  "DESIGN.md 5/C03")
